@@ -107,16 +107,6 @@ func (P *Program) findIntrinsic(fn *ssa.Function) intrinsicFn {
 						break
 					}
 				}
-				isStubCaller := false
-				for _, e := range entries {
-					if cf == e.fn {
-						isStubCaller = true
-					}
-				}
-				// harness code calling the stubbed API gets the first stub
-				if stub == nil && !isStubCaller && strings.HasPrefix(base, "zz_verif_") {
-					stub = entries[0].fn
-				}
 			}
 			if stub == nil {
 				if orig != nil {
